@@ -19,7 +19,7 @@ import (
 
 func init() { register("C11", c11) }
 
-var c11Types = []string{"/any", "/number", "/string", "/name", "/a", "/a/b", "fn:Singleton(/a/x)", "fn:Union(/number, /string)", "fn:List(/number)",
+var c11Types = []string{"/any", "/number", "/string", "/name", "/a", "/a/b", "fn:Singleton(/a/x)", "fn:Union(/number, /string)", "fn:Union(/a, /b)", "/b", "fn:List(/number)",
 	"fn:Pair(/number, /name)", "fn:Map(/name, /number)", "fn:Struct(/f, /number)", "fn:Struct(/f, /number, fn:opt(/g, /string))", "/float64", "/bytes", "fn:List(/a)", "fn:Map(/any, /any)"}
 
 var c11Rules = []string{
@@ -48,6 +48,10 @@ var c11Rules = []string{
 	"p(X,Z) :- e(X,Y), Z = [X: Y].",
 	"p(Z,X) :- e(X,Y), Z = fn:map:get(Y, X).",
 	"p(Z,X) :- e(X,Y), Z = fn:struct:get(Y, /f).",
+	"p(X,Y) :- e(X,Y), :match_prefix(X, /a).",
+	"p(X,Y) :- e(X,Y), !:match_prefix(X, /a).",
+	"p(X,Y) :- e(X,Y), !:match_prefix(X, /a/b).",
+	"p(X,Y) :- e(X,Y), !:match_prefix(X, /b), !:match_prefix(Y, /a/b).",
 }
 
 func c11Values() []ast.Constant {
@@ -74,7 +78,7 @@ func c11(r *rt.Run) {
 		r.Finish("replay")
 	}
 	r.SetBudget(240*time.Second, 3000*time.Second)
-	types := c11Types[:11]
+	types := c11Types[:13]
 	if r.Thorough() {
 		types = c11Types
 	}
@@ -163,7 +167,7 @@ func c11(r *rt.Run) {
 		}
 	})
 	c11MultiRow(r)
-	r.Finish("programs Decl e(A,B) bound[t1,t2]. Decl p(A,B) bound[s1,s2]. <facts of e> <rule> over a type alphabet (11 quick / 17 thorough), 25 rules (copy, swap, constants, constructors, match predicates, accessors, arithmetic, recursion, let-transform) and fact sets drawn from the constants the declaration of e admits; " +
+	r.Finish("programs Decl e(A,B) bound[t1,t2]. Decl p(A,B) bound[s1,s2]. <facts of e> <rule> over a type alphabet (11 quick / 17 thorough), 29 rules (copy, swap, positive and negated :match_prefix on a union of name-prefix types, constants, constructors, match predicates, accessors, arithmetic, recursion, let-transform) and fact sets drawn from the constants the declaration of e admits; " +
 		"a multi-row family (e declared with two bound rows, u/1 with a wide bound, 9 rule shapes incl. a variable bound earlier with a wider type and the 4th/5th distinct variable of a clause, every head row over 6 types and two-row heads); accepted-and-evaluated programs: every stored fact of e and p passes CheckTypeBounds; non-trivial = accepted programs that derive at least one p fact")
 }
 
